@@ -419,12 +419,13 @@ func (g *gen) specs(role spectypes.BeaconRole, e era) (honest []*mspec, mutants 
 		for _, n := range envReps {
 			add(main.get(n), "rsa-sig-bitflip", "", "envelope-signature-invalid", "signature verification").envMode = envBitflip
 			m := add(main.get(n), "rsa-payload-swapped", "", "envelope-signature-invalid", "signature verification")
-			other := "commit.r1.s2.A"
+			cands := []string{"commit.r1.s2.A", "commit.r1.s1.A"}
 			if !hasConsensus(role) {
-				other = "pre-consensus.s2"
+				cands = []string{"pre-consensus.s2", "pre-consensus.s1"}
 			}
+			other := cands[0]
 			if n == other {
-				other = "commit.r1.s1.A"
+				other = cands[1]
 			}
 			m.sigOver = main.get(other)
 			m = add(main.get(n), "rsa-unregistered-operator", "", "envelope-operator-unregistered", "operator not found")
@@ -572,9 +573,10 @@ func (g *gen) specs(role spectypes.BeaconRole, e era) (honest []*mspec, mutants 
 		m := main.get("prepare.r2.s1.A")
 		m.at = 500 * time.Millisecond
 		add(m, "edge-ok", "round-one-ahead:", "", "")
-		// round 0 (below the first round). Not tried on proposals: a round-0 proposal crashes the
-		// leader computation for heights divisible by the committee size (C08's finding).
-		for _, z := range []*mspec{main.prepare(0, 1, valueA), main.commit(0, 1, valueA)} {
+		// round 0 (below the first round). A round-0 proposal used to crash the leader computation
+		// (C08's finding, repaired in /repo d6559b644: answered "signer is not leader" now); a crash
+		// would be recorded as outcome "panic", never as an accept.
+		for _, z := range []*mspec{main.prepare(0, 1, valueA), main.commit(0, 1, valueA), main.proposal(0, valueA, 0)} {
 			z.at = 500 * time.Millisecond
 			add(z, "round-zero", "", "round-below-first", "message round is too far from estimated")
 		}
